@@ -2,7 +2,7 @@
    schedulers/components did (global update trace, tick log, master tick real times).
    Independent of the simulation function of Model/Sim.v: only the configuration, the
    flattening defined here and the device table are used. *)
-From TV Require Import Base Model.Wiring Model.Ticker Model.Component Model.Sim Oracle.SimCheck.
+From TV Require Import Base Model.Wiring Model.Ticker Model.Component Model.Sim Model.SimTime Oracle.SimCheck.
 Open Scope Z_scope.
 
 (* ---------- flattening a nested configuration (C09, C03) *)
@@ -218,7 +218,18 @@ Definition oracle_sim (c : sim_case) : list Z :=
   (if never_early (sc_num c) (sc_den c) (sc_mticks c) then [] else [96]) ++
   (if forallb (fun lv => nondecreasing (map fst (log_of_level lv (sc_ticklog c)))) (keys (sc_cfg c)) then [] else [46]).
 
-Definition check_sim_all (c : sim_case) : list Z := check_sim c ++ oracle_sim c.
+(* 55: the simulation-time abstraction of the master (Model/SimTime.v, the subject of the whole-run
+   non-interference theorem of C10) gives other observations than the master model with real time;
+   evaluated on the cases it is meant for: speed 1, no interrupts *)
+Definition obs_eqb (x y : obs) : bool :=
+  Pos.eqb (fst (fst x)) (fst (fst y)) && Z.eqb (snd (fst x)) (snd (fst y)) && values_eqb (snd x) (snd y).
+Definition check_simtime (c : sim_case) : list Z :=
+  if Z.eqb (sc_num c) 1 && Z.eqb (sc_den c) 1 && negb (nonempty (sc_stim c)) && negb (nonempty (sc_pre c)) then
+    let '(_, ob, fin) := sim_run (sc_cfg c) (table_dev (sc_devs c)) 4000 8 (sc_initial c) (sc_initial c + sc_end c) in
+    if fin && list_eqb obs_eqb ob (m_obs (model_run c)) then [] else [55]
+  else [].
+
+Definition check_sim_all (c : sim_case) : list Z := check_sim c ++ oracle_sim c ++ check_simtime c.
 
 (* ---------- pairs of runs: nested vs its flattening (C09), base vs base + disconnected part (C10) *)
 Definition pair_case := (sim_case * sim_case)%type.
